@@ -3198,29 +3198,30 @@ func (p *Posix) DeleteObject(ctx context.Context, input *s3.DeleteObjectInput) (
 				if err != nil {
 					return nil, err
 				}
-				err = os.Remove(objpath)
-				if err != nil {
-					return nil, fmt.Errorf("remove obj version: %w", err)
-				}
-
-				ents, err := os.ReadDir(versionPath)
-				if errors.Is(err, fs.ErrNotExist) {
+				// removes the current version when no other version is
+				// left to take its place
+				removeLatest := func() (*s3.DeleteObjectOutput, error) {
+					err := os.Remove(objpath)
+					if err != nil {
+						return nil, fmt.Errorf("remove obj version: %w", err)
+					}
 					p.removeParents(bucket, object)
 					return &s3.DeleteObjectOutput{
 						DeleteMarker: &isDelMarker,
 						VersionId:    input.VersionId,
 					}, nil
+				}
+
+				ents, err := os.ReadDir(versionPath)
+				if errors.Is(err, fs.ErrNotExist) {
+					return removeLatest()
 				}
 				if err != nil {
 					return nil, fmt.Errorf("read version dir: %w", err)
 				}
 
 				if len(ents) == 0 {
-					p.removeParents(bucket, object)
-					return &s3.DeleteObjectOutput{
-						DeleteMarker: &isDelMarker,
-						VersionId:    input.VersionId,
-					}, nil
+					return removeLatest()
 				}
 
 				// the newest remaining version becomes the latest again:
@@ -3264,10 +3265,9 @@ func (p *Posix) DeleteObject(ctx context.Context, input *s3.DeleteObjectInput) (
 					return nil, fmt.Errorf("copy object %w", err)
 				}
 
-				if err := f.link(); err != nil {
-					return nil, fmt.Errorf("link tmp file: %w", err)
-				}
-
+				// the attributes are set before the link, which replaces the
+				// deleted version in one step: the key never reads as missing
+				// or without its attributes, whenever the gateway dies
 				attrs, err := p.meta.ListAttributes(versionPath, srcVersionId)
 				if err != nil {
 					return nil, fmt.Errorf("list object attributes: %w", err)
@@ -3279,10 +3279,14 @@ func (p *Posix) DeleteObject(ctx context.Context, input *s3.DeleteObjectInput) (
 						return nil, fmt.Errorf("load %v attribute", attr)
 					}
 
-					err = p.meta.StoreAttribute(nil, bucket, object, attr, data)
+					err = p.meta.StoreAttribute(f.File(), bucket, object, attr, data)
 					if err != nil {
 						return nil, fmt.Errorf("store %v attribute", attr)
 					}
+				}
+
+				if err := f.link(); err != nil {
+					return nil, fmt.Errorf("link tmp file: %w", err)
 				}
 
 				err = os.Remove(filepath.Join(versionPath, srcVersionId))
